@@ -1,7 +1,7 @@
 (* C03 — property theorems about the budgeted flatten model.  Each is closed by `exact <lemma>` and followed by
    Print Assumptions; the check re-compiles this file on every run.  (Dispatch / size bounds: MagicsProperties.v) *)
 From Coq Require Import List NArith Bool.
-From MW Require Import Common.Str C03.Model C03.Proofs.
+From MW Require Import Common.Str C03.Model C03.Proofs C03.ProofsLazy.
 Import ListNotations.
 
 (* For EVERY universe (`tpl` is an arbitrary function from names to parsed templates: self-inclusion, mutual
@@ -10,40 +10,40 @@ Import ListNotations.
    TemplateRecursion never escapes the top level and MemoryLimitError never escapes a flatten call.  The Fixpoint
    itself is accepted by Coq because the recursion counter is its structural argument (nesting <= limit + 1). *)
 Theorem C03_flatten_total :
-  forall (tpl : str -> option node) (is_magic : str -> bool) (magic_fn : str -> list str -> str)
+  forall (tpl : str -> option node) (is_magic : str -> bool) (magic_prog : str -> nat -> mreq)
          (default_names : list str) (limit : nat) (page : node),
-  exists s, expand tpl is_magic magic_fn default_names limit page = Ok s.
+  exists s, expand tpl is_magic magic_prog default_names limit page = Ok s.
 Proof. exact expand_total. Qed.
 Print Assumptions C03_flatten_total.
 
 (* at recursion_count = recursion_limit + 1 no node is entered any more *)
 Theorem C03_nesting_bounded :
-  forall tpl is_magic magic_fn default_names c n e,
-  node_as_str n = None -> flatten tpl is_magic magic_fn default_names 0 c n e = Err XRec.
+  forall tpl is_magic magic_prog default_names c n e,
+  node_as_str n = None -> flatten tpl is_magic magic_prog default_names 0 c n e = Err XRec.
 Proof. exact flatten_budget_exhausted. Qed.
 Print Assumptions C03_nesting_bounded.
 
 (* the outermost calls yield nothing for an element that hits the limit and leave its siblings alone *)
 Theorem C03_siblings_survive :
-  forall tpl is_magic magic_fn default_names b e l,
-  flatten tpl is_magic magic_fn default_names (S (S b)) 0 (NSeq l) e
-  = Ok (concat (map (fun x => contrib tpl is_magic magic_fn default_names (S b) x e) l)).
+  forall tpl is_magic magic_prog default_names b e l,
+  flatten tpl is_magic magic_prog default_names (S (S b)) 0 (NSeq l) e
+  = Ok (concat (map (fun x => contrib tpl is_magic magic_prog default_names (S b) x e) l)).
 Proof. exact flatten_top_seq. Qed.
 Print Assumptions C03_siblings_survive.
 
 (* 256 KiB caps: an over-long template name / parameter name makes the call yield nothing; an argument handed to a
    magic word is never longer than the cap *)
 Theorem C03_name_cap_template :
-  forall tpl is_magic magic_fn default_names b c nm args e ps,
-  flatten tpl is_magic magic_fn default_names b (S c) nm e = Ok ps -> too_long (strip (pjoin ps)) = true ->
-  flatten tpl is_magic magic_fn default_names (S b) c (NTpl nm args) e = Ok [].
+  forall tpl is_magic magic_prog default_names b c nm args e ps,
+  flatten tpl is_magic magic_prog default_names b (S c) nm e = Ok ps -> too_long (strip (pjoin ps)) = true ->
+  flatten tpl is_magic magic_prog default_names (S b) c (NTpl nm args) e = Ok [].
 Proof. exact tpl_name_cap. Qed.
 Print Assumptions C03_name_cap_template.
 
 Theorem C03_name_cap_parameter :
-  forall tpl is_magic magic_fn default_names b c nm rest e ps,
-  flatten tpl is_magic magic_fn default_names b (S c) nm e = Ok ps -> too_long (strip (pjoin ps)) = true ->
-  flatten tpl is_magic magic_fn default_names (S b) c (NVar (nm :: rest)) e = Ok [].
+  forall tpl is_magic magic_prog default_names b c nm rest e ps,
+  flatten tpl is_magic magic_prog default_names b (S c) nm e = Ok ps -> too_long (strip (pjoin ps)) = true ->
+  flatten tpl is_magic magic_prog default_names (S b) c (NVar (nm :: rest)) e = Ok [].
 Proof. exact var_name_cap. Qed.
 Print Assumptions C03_name_cap_parameter.
 
@@ -52,8 +52,80 @@ Theorem C03_magic_argument_cap :
 Proof. exact arg_int_cap. Qed.
 Print Assumptions C03_magic_argument_cap.
 
+(* 256 KiB cap on a parameter value fetched by name or position ({{{x}}}): a value that had to be flattened is never longer
+   than the cap (beyond it the fetch raises MemoryLimitError, which voids the parameter node: C03_flatten_total still holds).
+   This is what stops  A = {{{1}}}{{A|{{{1}}}{{{1}}}}}  from doubling its argument 2^33 times within the recursion limit. *)
+Theorem C03_parameter_value_cap :
+  forall (fl : flat) ds val parent s,
+  node_as_str val = None -> value_of fl ds val parent = Ok s -> too_long s = false.
+Proof. exact value_of_cap. Qed.
+Print Assumptions C03_parameter_value_cap.
+
+(* EXCEPTION-PROPAGATION DISCIPLINE.  Magic words / parser functions are arbitrary strategies over their lazily fetched
+   arguments (`mreq`).  (1) A magic's run raises only what one of its own argument fetches raised: it never turns an exception
+   into output.  (2) A magic call at recursion_count >= 2 whose run raises TemplateRecursion raises TemplateRecursion.
+   (3) A sequence whose element raises TemplateRecursion raises it whatever follows that element: nothing to the right of the
+   failing call is evaluated, at any level below the top.  Hence one dive to the limit per top-level element. *)
+Theorem C03_magic_never_swallows :
+  forall (fl : flat) e args m x,
+  run_magic fl e args m = Err x -> exists a, In a args /\ arg_int fl e a = Err x.
+Proof. exact run_magic_err_from_fetch. Qed.
+Print Assumptions C03_magic_never_swallows.
+
+Theorem C03_magic_fetch_raises :
+  forall (fl : flat) e args i k a x,
+  nth_error args i = Some a -> arg_int fl e a = Err x -> run_magic fl e args (MAsk i k) = Err x.
+Proof. exact run_magic_fetch_raises. Qed.
+Print Assumptions C03_magic_fetch_raises.
+
+Theorem C03_magic_call_propagates :
+  forall tpl is_magic magic_prog default_names b c nm args e ps,
+  (2 <= c)%nat ->
+  flatten tpl is_magic magic_prog default_names b (S c) nm e = Ok ps ->
+  too_long (strip (pjoin ps)) = false -> is_magic (strip (pjoin ps)) = true ->
+  run_magic (flatten tpl is_magic magic_prog default_names b (S c)) e args (magic_prog (strip (pjoin ps)) (length args)) = Err XRec ->
+  flatten tpl is_magic magic_prog default_names (S b) c (NTpl nm args) e = Err XRec.
+Proof. exact magic_call_propagates. Qed.
+Print Assumptions C03_magic_call_propagates.
+
+Theorem C03_sequence_stops_at_first_error :
+  forall tpl is_magic magic_prog default_names b c l1 x l2 e,
+  (2 <= c)%nat ->
+  (forall y, In y l1 -> exists ps, flatten tpl is_magic magic_prog default_names b (S c) y e = Ok ps) ->
+  flatten tpl is_magic magic_prog default_names b (S c) x e = Err XRec ->
+  flatten tpl is_magic magic_prog default_names (S b) c (NSeq (l1 ++ x :: l2)) e = Err XRec.
+Proof. exact seq_propagates. Qed.
+Print Assumptions C03_sequence_stops_at_first_error.
+
+(* non-vacuity of the discipline: Template:A = {{#ifexpr|1|x{{A}}{{A}}}} with a lazy #ifexpr strategy on the page "s {{A}} e"
+   expands to "s  e" (limits 100 and 7); with the condition 0 the recursive branch is never fetched and the page is "s n e" *)
+Example C03_example_lazy_recursion :
+  expand ex_lazy_tpl ex_lazy_is_magic ex_lazy_prog [default_key] 100 ex_lazy_page = Ok [115; 32; 32; 101]%N /\
+  expand ex_lazy_tpl ex_lazy_is_magic ex_lazy_prog [default_key] 7 ex_lazy_page = Ok [115; 32; 32; 101]%N.
+Proof. exact example_lazy_recursion. Qed.
+Print Assumptions C03_example_lazy_recursion.
+
+Example C03_example_lazy_untaken :
+  expand (fun name => if str_eqb name [97%N] then Some ex_A0 else None) ex_lazy_is_magic ex_lazy_prog [default_key] 100 ex_lazy_page
+  = Ok [115; 32; 110; 32; 101]%N.
+Proof. exact example_lazy_untaken. Qed.
+Print Assumptions C03_example_lazy_untaken.
+
+(* COST.  FULL STATEMENT ASKED FOR: "the number of node visits of `expand limit page` is bounded by a polynomial in (page size,
+   universe size, limit)".  It is FALSE of the model and of the code: the acyclic chain T_i = {{T_(i+1)}}{{T_(i+1)}}, T_12 = "x"
+   (13 templates, 24 calls) never reaches the limit and outputs 2^12 characters (2^k for k < limit/3 links).  Refuted here by
+   computation; what IS bounded is the nesting (C03_nesting_bounded), the size of every fetched value (the caps) and the number
+   of limit hits per top-level element (the discipline above); see C03/Cost.v for the bound these give. *)
+Example C03_cost_polynomial_refuted :
+  match expand (chain_tpl 12) (fun _ => false) (fun _ _ => MDone []) [default_key] 100 (NTpl (NStr [65%N]) []) with
+  | Ok s => length s = 4096
+  | Err _ => False
+  end.
+Proof. exact example_doubling_chain. Qed.
+Print Assumptions C03_cost_polynomial_refuted.
+
 (* non-vacuity: the self-including template a = "x{{a}}" on the page "1{{a}}2{{b}}" (b missing) expands to "12" *)
 Example C03_example_cycle :
-  expand ex_tpl (fun _ => false) (fun _ _ => []) [default_key] 100 ex_page = Ok [49; 50]%N.
+  expand ex_tpl (fun _ => false) (fun _ _ => MDone []) [default_key] 100 ex_page = Ok [49; 50]%N.
 Proof. exact example_cycle. Qed.
 Print Assumptions C03_example_cycle.
